@@ -483,3 +483,71 @@ func init() {
 	register(&Scenario{Prop: "C04", Name: "c04/many-calls-equal-length-names", Quick: []Bound{{0, 0}}, Thorough: []Bound{{1, 0}}, Body: manyCallsEqualNames("C04"), MaxSteps: 1000000, BudgetQ: 15, MinHB: 1})
 	register(&Scenario{Prop: "C06", Name: "c06/many-calls-equal-length-names", Quick: []Bound{{0, 0}}, Thorough: []Bound{{1, 0}}, Body: manyCallsEqualNames("C06"), MaxSteps: 1000000, BudgetQ: 15, MinHB: 1})
 }
+
+// the smallest requests: with the built-in / pb header a frame of zero bytes is a well-formed
+// request (sequence number 0, no flags, empty method name, no arguments) and a frame that carries
+// only a sequence number is one too: each is answered exactly once ("can't find service"), at any
+// position of the conversation, in every server mode, and the requests around it are executed once.
+func c04Smallest(modes []c04Mode) func(x *X) {
+	return func(x *X) {
+		mode := modes[x.Choose(len(modes))]
+		pos := x.Choose(3)  // the small frame is the first / second / last of three requests
+		kind := x.Choose(2) // empty frame / sequence number only
+		enc := wireEncoder("")
+		w, srv, cl, net := rawServer(mode.sys, mode.so)
+		small := []byte{}
+		var smallSeq uint64
+		if kind == 1 {
+			small = mkReq(enc, 9, nil, "", nil)
+			smallSeq = 9
+		}
+		var sent []uint64
+		k := 0
+		for i := 0; i < 3; i++ {
+			if i == pos {
+				cl.WriteMessage(small)
+				sent = append(sent, smallSeq)
+				continue
+			}
+			k++
+			cl.WriteMessage(mkReq(enc, uint64(20+k), nil, "Svc.Echo", mkPayload(byte(k), 0, 10+k)))
+			sent = append(sent, uint64(20+k))
+		}
+		vs.Quiesce()
+		var res []rawRes
+		for _, fr := range cl.Wire() {
+			if fr.Dir == 1 {
+				if r, ok := decodeRes(enc, fr.Data); ok {
+					res = append(res, r)
+				}
+			}
+		}
+		count := map[uint64]int{}
+		for _, r := range res {
+			count[r.Seq]++
+			if r.Seq == smallSeq && r.Error == "" {
+				x.Fail("C04/smallest-request-outcome", "the request without a method name was answered without an error")
+			}
+		}
+		for _, s := range sent {
+			if count[s] != 1 {
+				x.Fail(fmt.Sprintf("C04/responses=%d/smallest-request", count[s]), "requests with sequence numbers %v were sent (the one numbered %d is a %d-byte frame: no method name, no arguments); %d responses carry the number %d (mode %s/%s)", sent, smallSeq, len(small), count[s], s, mode.sys.name, modeName(mode.so))
+			}
+		}
+		for i := 1; i <= 2; i++ {
+			if w.execs[byte(i)] != 1 {
+				x.Fail(fmt.Sprintf("C04/executions=%d/next-to-smallest-request", w.execs[byte(i)]), "request %d next to a %d-byte request was executed %d times", i, len(small), w.execs[byte(i)])
+			}
+		}
+		x.Outcome("%s/%s pos=%d kind=%d responses=%d", mode.sys.name, modeName(mode.so), pos, kind, len(res))
+		cl.Close()
+		if net != nil {
+			srv.Close()
+		}
+		vs.Quiesce()
+	}
+}
+
+func init() {
+	register(&Scenario{Prop: "C04", Name: "c04/smallest-requests", Quick: []Bound{{0, 0}, {1, 0}}, Thorough: []Bound{{2, 0}}, Body: c04Smallest(c04Modes()), BudgetQ: 15})
+}
